@@ -179,7 +179,24 @@ Specified == {"each", "at", "root", "asm", "set", "setall", "get", "getall", "de
 \*     statement does not say whether it shares structure with the root or the plan, so mutating through it is "any".
 \* al: a container value has been stored into the root by set/setall; the descriptions do not say whether it is
 \*     copied, so every later mutation is "any" (allowance: aliasing).
-AtRoot == [mode |-> "root", v |-> Null, al |-> FALSE]
+\* rd: the READING of a clause the descriptions leave open but that must be the same in every call: the sign rule of mod
+\*     ("trunc": sign of the dividend, "floor": sign of the divisor, "euclid": never negative).  A plan is judged against
+\*     every reading; the code has to agree with ONE of them throughout the plan.
+AtRoot == [mode |-> "root", v |-> Null, al |-> FALSE, rd |-> "trunc"]
+ModReadings == {"trunc", "floor", "euclid"}
+ModRd(vs, rd) ==
+  IF Len(vs) # 2 THEN AnyR
+  ELSE IF ~IsInt(vs[1]) \/ ~IsInt(vs[2]) THEN ErrR        \* "An error is raised if the wrong argument types are given"
+  ELSE IF IsBig(vs[1]) \/ IsBig(vs[2]) THEN AnyR
+  ELSE IF vs[2].v = 0 THEN AnyR                           \* a zero modulus is not described
+  ELSE LET a == vs[1].v
+           b == vs[2].v
+           ab == IF b < 0 THEN -b ELSE b
+           m == a % ab                                    \* 0 .. ab-1
+           neg == IF m = 0 THEN 0 ELSE m - ab IN
+       [k |-> "ok", v |-> IntV(CASE rd = "euclid" -> m
+                                 [] rd = "floor" -> (IF b > 0 THEN m ELSE neg)
+                                 [] OTHER -> (IF a >= 0 THEN m ELSE neg))]
 AtVal(root, at) == IF at.mode = "root" THEN root ELSE at.v
 Ok(v, root, at) == [k |-> "ok", v |-> v, isAt |-> FALSE, root |-> root, at |-> at]
 
@@ -319,7 +336,7 @@ Chain(args, root, at, same) ==
        \* ("loc": it can be mutated through @ with value semantics), any other value may share structure ("det")
        ELSE Chain(Tail(args), r.root,
                   IF r.isAt THEN r.at
-                  ELSE [mode |-> IF args[1].t \in {"arr", "obj"} THEN "loc" ELSE "det", v |-> r.v, al |-> r.at.al],
+                  ELSE [mode |-> IF args[1].t \in {"arr", "obj"} THEN "loc" ELSE "det", v |-> r.v, al |-> r.at.al, rd |-> r.at.rd],
                   same /\ r.isAt)
 
 \* cond: "All arguments must be array of two elements. The first element must evaluate to a boolean and the second can be
@@ -446,7 +463,7 @@ Eval(n, root, at) ==
                          RECURSIVE Iter(_, _, _, _)
                          Iter(j, rt, al, acc) ==
                            IF j > Len(l.v.v) THEN [k |-> "ok", vs |-> acc, root |-> rt, al |-> al]
-                           ELSE LET r == Eval(n.a[2], rt, [mode |-> "loc", v |-> Obj([src |-> l.v.v[j]]), al |-> al]) IN
+                           ELSE LET r == Eval(n.a[2], rt, [mode |-> "loc", v |-> Obj([src |-> l.v.v[j]]), al |-> al, rd |-> kk.at.rd]) IN
                                 IF r.k # "ok" THEN [k |-> r.k]
                                 ELSE IF r.at.mode # "loc" THEN AnyR
                                 ELSE Iter(j + 1, r.root, r.at.al,
@@ -462,13 +479,14 @@ Eval(n, root, at) ==
                 ELSE IF e.k = "err" THEN (IF f \in {"and", "or", "equal", "neq", "lt", "lte", "gt", "gte"} THEN AnyR ELSE ErrR)
                 ELSE IF f \in {"and", "or", "equal", "neq", "lt", "lte", "gt", "gte"} /\ \E j \in 1..Len(n.a) : HasMut(n.a[j]) THEN AnyR
                 ELSE IF \E j \in 1..Len(e.vs) : e.vs[j].t \notin ValueTags THEN AnyR
-                ELSE LET r == Apply(f, e.vs) IN
+                ELSE LET r == IF f = "mod" THEN ModRd(e.vs, e.at.rd) ELSE Apply(f, e.vs) IN
                      IF r.k # "ok" THEN r ELSE Ok(r.v, e.root, e.at)
            [] OTHER -> AnyR      \* Opaque(fn)
     [] OTHER -> AnyR
 
 \* Execute: the plan function is evaluated with @ = $ = root; the returned value is discarded, the root is the result
 Exec(plan, root) == Eval(plan, root, AtRoot)
+ExecRd(plan, root, rd) == Eval(plan, root, [AtRoot EXCEPT !.rd = rd])
 
 \* ------------------------------------------------------------------ frame condition for $.src
 \* root'.src = root.src unless a documented mutator is applied to a path that may denote data under $.src: a path under
